@@ -175,6 +175,12 @@ package prelude
 //@ func (Type).Kind
 //@   trusted
 //@   pure
+// Interface panics on the zero Value ("reflect: call of reflect.Value.Interface on zero Value");
+// the zero Value is the one whose flag word is 0 (reflect.Value.IsValid).
+//@ func (Value).Interface
+//@   trusted
+//@   requires v.flag != 0
+//@   modifies nothing
 
 //@ package runtime
 
@@ -214,3 +220,13 @@ package prelude
 //@   trusted
 //@   modifies gf(b, content, string)
 //@   ensures n == 0 ==> gf(b, content, string) == ""
+
+//@ package strings
+//@ func LastIndexByte
+//@   trusted
+//@   pure
+//@   ensures -1 <= result && result < len(s)
+//@ func IndexByte
+//@   trusted
+//@   pure
+//@   ensures -1 <= result && result < len(s)
